@@ -176,6 +176,22 @@ func (tx *Tx) Commit() error {
 		countFlag = CountFlagDisabled
 	}
 
+	// Refuse the whole transaction before anything is written or indexed.
+	for _, entry := range tx.pendingWrites {
+		if entry.Size() > tx.db.opt.SegmentSize {
+			return ErrKeyAndValSize
+		}
+	}
+
+	// In the RAM index modes the B+ tree is only touched once every record is
+	// on disk, so that a Commit that fails half way leaves the index as it was.
+	type writtenEntry struct {
+		bucket      string
+		entry, e    *Entry
+		off, fileID int64
+	}
+	var written []writtenEntry
+
 	for i := 0; i < writesLen; i++ {
 		entry := tx.pendingWrites[i]
 		entrySize := entry.Size()
@@ -240,8 +256,16 @@ func (tx *Tx) Commit() error {
 		}
 
 		if entry.Meta.ds == DataStructureBPTree {
-			tx.buildBPTreeIdx(bucket, entry, e, off, countFlag)
+			if tx.db.opt.EntryIdxMode == HintBPTSparseIdxMode {
+				tx.buildBPTreeIdx(bucket, entry, e, off, tx.db.ActiveFile.fileID, countFlag)
+			} else {
+				written = append(written, writtenEntry{bucket, entry, e, off, tx.db.ActiveFile.fileID})
+			}
 		}
+	}
+
+	for _, w := range written {
+		tx.buildBPTreeIdx(w.bucket, w.entry, w.e, w.off, w.fileID, countFlag)
 	}
 
 	tx.buildIdxes(writesLen)
@@ -387,12 +411,12 @@ func (tx *Tx) buildIdxes(writesLen int) {
 	}
 }
 
-func (tx *Tx) buildBPTreeIdx(bucket string, entry, e *Entry, off int64, countFlag bool) {
+func (tx *Tx) buildBPTreeIdx(bucket string, entry, e *Entry, off int64, fileID int64, countFlag bool) {
 	if tx.db.opt.EntryIdxMode == HintBPTSparseIdxMode {
 		newKey := []byte(bucket)
 		newKey = append(newKey, entry.Key...)
 		tx.db.ActiveBPTreeIdx.Insert(newKey, e, &Hint{
-			fileID:  tx.db.ActiveFile.fileID,
+			fileID:  fileID,
 			key:     newKey,
 			meta:    entry.Meta,
 			dataPos: uint64(off),
@@ -406,7 +430,7 @@ func (tx *Tx) buildBPTreeIdx(bucket string, entry, e *Entry, off int64, countFla
 			tx.db.BPTreeIdx[bucket] = NewTree()
 		}
 		_ = tx.db.BPTreeIdx[bucket].Insert(entry.Key, e, &Hint{
-			fileID:  tx.db.ActiveFile.fileID,
+			fileID:  fileID,
 			key:     entry.Key,
 			meta:    entry.Meta,
 			dataPos: uint64(off),
